@@ -144,6 +144,25 @@ def prove(res, name, assumptions, negated_goal, timeout_ms=60000, key=None, cex_
     s.add(negated_goal)
     r, dt = solve(s, timeout_ms)
     res.queries += 1; res.solver_s += dt
+    if r == z3.unknown:
+        # no verdict within the budget: look for a model on random rational points (every real constant fixed; what remains is easy).  Only a found model changes the outcome
+        # (it is a genuine counterexample of the same query and is replayed natively like any other); no model found leaves the obligation inconclusive.
+        import random as _rnd
+        consts = {}
+        stack = list(s.assertions()); seen = set()
+        while stack:
+            t = stack.pop()
+            if t.get_id() in seen: continue
+            seen.add(t.get_id())
+            if z3.is_const(t) and t.decl().kind() == z3.Z3_OP_UNINTERPRETED and z3.is_real(t): consts[str(t)] = t
+            stack.extend(t.children())
+        rg = _rnd.Random(12345)
+        for attempt in range(6):
+            s.push()
+            for nm in sorted(consts): s.add(consts[nm] == z3.RealVal('%d/%d' % (rg.randint(-12, 12) or 1, rg.choice((1, 2, 3, 4)))))
+            r2, dt2 = solve(s, 20000); res.queries += 1; res.solver_s += dt2
+            if r2 == z3.sat: r = z3.sat; dt += dt2; break
+            s.pop()
     if crosscheck(res, s, r) is False:
         ob = Ob(name, 'inconclusive', dt, detail='z3 says %s, cvc5 disagrees' % r, key=key, kind=kind); res.obs.append(ob); return ob
     if r == z3.unsat: ob = Ob(name, 'holds', dt, key=key, kind=kind)
